@@ -570,6 +570,81 @@ case_img(long idx, void *ctx)
     mc_count("image_cases", 1);
 }
 
+/* several palettes in one file: written through GR (one per image) or through DFP, read sequentially through DFP and through GR */
+static void
+case_palettes(long idx, void *ctx)
+{
+    (void)ctx;
+    int w = (int)(idx % 2), n = 1 + (int)(idx / 2 % 4);
+    int cfg[3] = {7, w, n};
+    mc_set_config(cfg, 3, "family=palettes");
+    setcase("%d palettes written by %s, read one after another by DFPgetpal%s", n, w ? "DFP" : "GR (one per 8-bit image)", w ? "" : " and by GRreadlut");
+    vfs_remove_file(PATH);
+    uint8 pal[4][768];
+    for (int k = 0; k < n; k++)
+        for (int i = 0; i < 768; i++)
+            pal[k][i] = (uint8)((i * (k + 3) + 17 * k) & 0xff);
+    int32 rc = 0;
+    if (w == 0) {
+        int32 f = Hopen(PATH, DFACC_CREATE, 0), G = GRstart(f), d[2] = {3, 2}, st[2] = {0, 0};
+        uint8 px[6] = {1, 2, 3, 4, 5, 6};
+        for (int k = 0; k < n && rc != FAIL; k++) {
+            char nm[16];
+            snprintf(nm, sizeof nm, "img%d", k);
+            int32 ri = GRcreate(G, nm, 1, DFNT_UINT8, 0, d);
+            px[0]    = (uint8)(10 + k);
+            rc       = GRwriteimage(ri, st, NULL, d, px);
+            if (rc != FAIL)
+                rc = GRwritelut(GRgetlutid(ri, 0), 3, DFNT_UINT8, 0, 256, pal[k]);
+            GRendaccess(ri);
+        }
+        if (GRend(G) == FAIL || Hclose(f) == FAIL)
+            rc = FAIL;
+    }
+    else
+        for (int k = 0; k < n && rc != FAIL; k++)
+            rc = k == 0 ? DFPputpal(PATH, pal[k], 0, "w") : DFPaddpal(PATH, pal[k]);
+    if (rc == FAIL) {
+        mc_violation("pal:write-failed", "%s: the writing interface refused a legal palette", g_case);
+        return;
+    }
+    DFPrestart();
+    int np = DFPnpals(PATH);
+    if (np != n)
+        DISAGREE("pal:dfp-count", "DFPnpals reports %d palettes, %d were written", np, n);
+    DFPrestart();
+    for (int k = 0; k < n; k++) {
+        uint8 got[768];
+        memset(got, 0xEE, sizeof got);
+        if (DFPgetpal(PATH, got) == FAIL) {
+            DISAGREE("pal:dfp-sequence", "DFPgetpal #%d fails although %d palettes were written", k, n);
+            break;
+        }
+        int which = -1;
+        for (int j = 0; j < n; j++)
+            if (!memcmp(got, pal[j], 768))
+                which = j;
+        if (which != k)
+            DISAGREE("pal:dfp-sequence", "DFPgetpal #%d returns %s", k, which < 0 ? "a palette that was never written" : "a palette that was already returned / out of order");
+    }
+    if (w == 0) {
+        int32 f = Hopen(PATH, DFACC_READ, 0), G = GRstart(f);
+        for (int k = 0; k < n; k++) {
+            int32 ri = GRselect(G, k);
+            uint8 got[768];
+            memset(got, 0xEE, sizeof got);
+            if (ri == FAIL || GRreadlut(GRgetlutid(ri, 0), got) == FAIL || memcmp(got, pal[k], 768))
+                DISAGREE("pal:gr-lut", "GRreadlut of image %d differs from the palette written", k);
+            if (ri != FAIL)
+                GRendaccess(ri);
+        }
+        GRend(G);
+        Hclose(f);
+    }
+    mc_outcome(mc_hash(mc_hash_i(MC_H0, 700 + w * 10 + n), pal[n - 1], 768));
+    mc_count("palette_cases", 1);
+}
+
 /* ================================================================== annotations: DFAN <-> AN */
 static void
 case_ann(long idx, void *ctx)
@@ -1136,9 +1211,9 @@ typedef struct {
     long n;
 } fam_t;
 static fam_t FAM[] = {
-    {"sds", case_sds, 2 * NSHAPE * NNT * 8 * 2}, {"img", case_img, 4 * 4 * 3 * 2}, {"ann", case_ann, 2 * 4 * 3}, {"nc", case_nc, 2 * 5 * 2 * 2}, {"vview", case_vview, 12}, {"legacy", case_legacy, 0}, {"recvar", case_recvar, NNT * 4 * 2},
+    {"sds", case_sds, 2 * NSHAPE * NNT * 8 * 2}, {"img", case_img, 4 * 4 * 3 * 2}, {"ann", case_ann, 2 * 4 * 3}, {"nc", case_nc, 2 * 5 * 2 * 2}, {"vview", case_vview, 12}, {"legacy", case_legacy, 0}, {"recvar", case_recvar, NNT * 4 * 2}, {"palettes", case_palettes, 8},
 };
-#define NFAM 7
+#define NFAM 8
 
 int
 C15_main(const char *tier, const char *replay)
@@ -1166,6 +1241,7 @@ C15_main(const char *tier, const char *replay)
             case 4: idx = cfg[1] + 4 * (cfg[2] - 1); break;
             case 5: idx = cfg[1]; break;
             case 6: idx = cfg[1] + (long)NNT * (cfg[2] + 4 * cfg[3]); break;
+            case 7: idx = cfg[1] + 2 * (cfg[2] - 1); break;
         }
         FAM[cfg[0]].fn(idx, NULL);
         printf("replay C15: %s\n", g_case);
